@@ -28,7 +28,14 @@ pub fn gen_coding(t: &mut Tape, total: usize) -> Coding {
             _ => b";q=\"\xe9\"".to_vec(),
         };
         let digits = format!("{:x}", len).len();
-        let lz = if t.chance(15) { t.range(1, 2) } else { 0 };
+        // a few size lines are padded up to the decoder's 20-byte limit
+        let lz = if t.chance(15) {
+            t.range(1, 2)
+        } else if t.chance(10) {
+            t.range(17, 20).saturating_sub(digits + ext.len())
+        } else {
+            0
+        };
         chunks.push(ChunkSpec { len, upper: t.bool(), lead_zeros: lz.min(20usize.saturating_sub(digits + ext.len())), ext });
         left -= len;
     }
